@@ -201,6 +201,26 @@ class Daemon:
         self._write(line + b"\n")
         return self.barrier()
 
+    def drain(self, settle=0.05):
+        """Whatever the daemon has already written, without sending it anything (complete lines only)."""
+        lines = []
+        while True:
+            r, _, _ = select.select([self.p.stdout], [], [], settle)
+            if not r:
+                break
+            chunk = os.read(self.p.stdout.fileno(), 65536)
+            if not chunk:
+                self.eof = True
+                break
+            self.buf += chunk
+        while True:
+            i = self.buf.find(b"\n")
+            if i < 0:
+                break
+            lines.append(self.buf[:i])
+            self.buf = self.buf[i + 1:]
+        return lines
+
     def send_raw(self, data):
         self._write(data)
 
